@@ -15,6 +15,8 @@ def filtered_domain_size(ir, i):
         from . import lang
 
         return len(lang.Oracle(ir, lang.build_world(ir["world"])).var_domains[i])
+    if v.get("plain"):
+        return len(v["dom"])
     n = 0
     for j in v["dom"]:
         if j < 0:
@@ -152,6 +154,10 @@ def query_classes(ir):
         cls.append("value_equal_twins")
     if any(v.get("gen") for v in ir["vars"]):
         cls.append("generator_domain")
-    if any(-1 in v["dom"] for v in ir["vars"]):
+    if any(-1 in v["dom"] for v in ir["vars"] if not v.get("plain")):
         cls.append("noise_in_domain")
+    if any(v.get("plain") and ("var", i) in refs for i, v in enumerate(ir["vars"])):
+        cls.append("plain_value_variable")
+        if any(v.get("plain") and any(not x for x in v["dom"]) for v in ir["vars"]):
+            cls.append("plain_falsy_value")
     return cls
